@@ -51,6 +51,22 @@ def convert_and_compare(chk, data, view_box_fn, ctx, replay, expect_var=False):
         for p in oracle_cmp.compare(exp, got, 3.0, grid=14, ctx=f"{ctx} {gname}: "):
             if "too small" not in p:
                 chk.violation(p, dict(replay, svg=text))
+        # a font with several palettes: the same comparison with palette 1 selected on both sides (the SVG's
+        # var(--colorN, c) must follow the palette wherever the COLR paint does)
+        if len(font["CPAL"].palettes) > 1:
+            pal = font["CPAL"].palettes[1]
+            oracle_colr.PALETTE_INDEX[0] = 1
+            oracle_svg.PALETTE_OVERRIDE[0] = [(c.red, c.green, c.blue) for c in pal]
+            try:
+                doc1 = oracle_otsvg.Doc(text)
+                got1 = doc1.render(doc1.root, G.mul(oracle_otsvg.FLIP, A))
+                exp1 = [_Exp(p) for p in oracle_cmp.colr_layers(font, gname, cache)]
+            finally:
+                oracle_colr.PALETTE_INDEX[0] = 0
+                oracle_svg.PALETTE_OVERRIDE[0] = None
+            for p in oracle_cmp.compare(exp1, got1, 3.0, grid=14, ctx=f"{ctx} {gname} with palette 1 selected: "):
+                if "too small" not in p:
+                    chk.violation(p, dict(replay, svg=text, palette=1))
         if expect_var and "var(--color" not in text and "fill=" in text:
             chk.violation(f"{ctx}: multi-palette font but {gname}'s SVG has no var(--colorN, c) fills", dict(replay, svg=text))
 
